@@ -24,6 +24,7 @@ func init() {
 			"R4 determinism: the closure of LaunchDigest calls no clock, random source or environment lookup and has no map iteration whose body extends the measurement. " +
 			"R6 declared order: every sort call in the call closure of LaunchDigest sorts a slice allocated in the same function (a copy), so the SNP metadata sections reach the measurement in the order the firmware declares them. " +
 			"R5 AP reset vector: where the SEV-ES reset block is decoded, its first result is stored into VmcbSaveArea.Rip and its second into VmcbSeg.Base of an object other than the boot processor's VMSA, by stores that dominate every successful return (a proto merge or conditional copy, which skips zero halves, is not such a store). " +
+			"R8 (= C06.R5/R7/R8, SEV constructs) every per-count launch digest is computed with options whose vCPU count is that count and whose product is the requested one, set in the same loop iteration. " +
 			"Not covered (value clauses): equality with the AMD digest chain, PAGE_INFO field values, VMSA defaults, GPA truncation constants, rejection of each malformed-metadata class. PAGE_INFO/VMSA layout is decided under C18.",
 		Assumptions: []string{"go/types, go/ssa, VTA call graph"},
 		Run:         runC04,
@@ -31,6 +32,10 @@ func init() {
 }
 
 func runC04(c *Ctx) {
+	// R8 = C06.R5/R7/R8 on the SEV side: each per-count digest is computed with that count and the requested product.
+	c.borrow("R8/C06.", runC06, func(rule, construct string) bool {
+		return (rule == "R8" || rule == "R7" || rule == "R5") && strings.Contains(construct, "sev.")
+	})
 	sevPkg := repoPath("sev")
 	ld := c.fn("R1", "sev", "LaunchDigest")
 	us := c.fn("R3", "sev", "UnsignedSnp")
